@@ -369,6 +369,69 @@ impl ValT for PV {
     }
 }
 
+// ---- fat: plain semantics, but each element is larger than a cache line or two (element-size dependent
+// paths: layout computation, per-element move cost heuristics, size_of-based special cases) ----
+#[derive(Clone, Copy)]
+pub struct FK(pub u32, pub [u64; 20]);
+impl Hash for FK {
+    #[inline]
+    fn hash<S: Hasher>(&self, s: &mut S) {
+        tick(HASH, self.0);
+        s.write_u32(self.0)
+    }
+}
+impl PartialEq for FK {
+    #[inline]
+    fn eq(&self, o: &FK) -> bool {
+        tick(EQ, o.0);
+        self.0 == o.0
+    }
+}
+impl Eq for FK {}
+impl KeyT for FK {
+    const NAME: &'static str = "fat";
+    fn new(k: u32) -> Self {
+        FK(k, [k as u64 ^ 0x5a5a_5a5a; 20])
+    }
+    fn probe(k: u32) -> Self {
+        FK(k, [0; 20])
+    }
+    fn k(&self) -> u32 {
+        self.0
+    }
+    fn id(&self) -> u32 {
+        0
+    }
+}
+#[derive(Clone, Copy)]
+pub struct FV(pub u32, pub [u64; 24]);
+impl PartialEq for FV {
+    fn eq(&self, o: &FV) -> bool {
+        self.0 == o.0
+    }
+}
+impl ValT for FV {
+    fn new(v: u32) -> Self {
+        FV(v, [v as u64; 24])
+    }
+    fn v(&self) -> u32 {
+        // the padding travels with the value: a torn or partial move shows up as a wrong value
+        if self.1[0] != self.1[23] { u32::MAX } else { self.0 }
+    }
+    fn set(&mut self, v: u32) {
+        self.0 = v;
+        self.1 = [v as u64; 24];
+    }
+    fn id(&self) -> u32 {
+        0
+    }
+}
+impl Default for FV {
+    fn default() -> Self {
+        <FV as ValT>::new(0)
+    }
+}
+
 // ---- heap-owning, ledger tracked, canary checked ----
 const MAGIC: u64 = 0xC0FFEE_5EED_0000;
 pub struct HK {
@@ -611,6 +674,8 @@ macro_rules! dbg_serde {
 }
 dbg_serde!(PK, |x: &PK| x.0, PK);
 dbg_serde!(PV, |x: &PV| x.0, PV);
+dbg_serde!(FK, |x: &FK| x.0, <FK as KeyT>::new);
+dbg_serde!(FV, |x: &FV| x.0, <FV as ValT>::new);
 dbg_serde!(HK, |x: &HK| x.k, <HK as KeyT>::new);
 dbg_serde!(HV, |x: &HV| x.v, <HV as ValT>::new);
 dbg_serde!(ZK, |_x: &ZK| 0u32, <ZK as KeyT>::new);
